@@ -9,7 +9,7 @@ for l in open(os.path.join(VERIF, "properties.jsonl")):
 LEVEL = {
  "C01": ("theorem: the getters equal the history functions last_rx (induction over arbitrary op lists of the model); observer obs_C01 = that equation evaluated on the real library after every call of sweeps over block A/B and random histories ; code level: rdsparser_group_parse translated from the sources = the model's group_parse (C01_code_group_parse)", "8/C01"),
  "C02": ("theorems: cells of all four texts after any group = spec_cells (writes_of applied with cell_after; nothing else changes), charset table = G0 reference (kernel-checked on the regenerated Gen.v), address extractors translated from the C sources and proved equal to the model's; observer obs_C02 proved of every model step and evaluated on the implementation (incl. a sweep of all 65536 data words for lasting effects) ; code level: the charset table in the source = the measured graph, rdsparser_group0_parse / rdsparser_group10_parse = the model's (C02_code_*)", "8/C02, 17.3"),
- "C03": ("2-safety theorem on the model (step equal for dontcare-equivalent groups); on the implementation twin instances fed dontcare-equivalent groups (hypothesis re-checked by the extracted predicate) must agree on every getter and callback for the whole continuation ; code level: rdsparser_parser_process with everything below it, translated from the sources, = the model's process (C03_code_process)", "8/C03"),
+ "C03": ("2-safety theorem on the model (step equal for dontcare-equivalent groups); on the implementation twin instances fed dontcare-equivalent groups (hypothesis re-checked by the extracted predicate) must agree on every getter and callback for the whole continuation ; code level: rdsparser_parser_process with everything below it, translated from the sources, = the model's process, and the public rdsparser_parse = the model's step (C03_code_process, C03_code_parse)", "8/C03"),
  "C04": ("theorems: per field the callbacks of a call are exactly [one, with the new value] iff the getter result changed and a callback is registered (scalars, PS, PTYN, RT incl. A/B switch, AF per newly listed code); re-delivery of a group changes nothing and notifies nothing but clock time; obs_C04 proved of every model step; same observer on implementation traces whose samples are taken inside the real callbacks ; code level: the eight setters with their callback invocations = the model's set_scalar / add_af (C04_code_*)", "8/C04, 17.3"),
  "C05": ("partial: theorem that the model's checked array accesses never fault for any blocks/error codes/thresholds/strings; layout-level memory safety, uninitialised reads and UB are searched with ASan+UBSan builds in three configurations (and valgrind in the thorough tier), not proved", "8/C05"),
  "C06": ("theorem: each addressed cell equals cell_after (thresholds of that text, weighted level, special-character and same-data rules) + kernel-checked weight facts; observer obs_C06 on the implementation ; code level: rdsparser_parser_update_string / rdsparser_string_update / _update_single = the model's upd_string (C06_code_*)", "8/C06"),
@@ -45,7 +45,7 @@ def main():
             "engine": "coq-model+correspondence",
             "level_claimed": {"category": "proof", "text": text, "design_ref": "DESIGN.md section " + ref},
             "level_note": "Coq 8.16.1 kernel (vm_compute used, native_compute not), no axioms; trusted: gen_dump.c + gcc (Gen.v = graph of compiled tables), tools/cleaf.py and tools/cmid.py + clang front end (GenLeaf.v, GenMid.v; the memory model of cmid.py: members of one struct never alias, string accessors recognised by name, callbacks as events), hand-written model tied by running extracted model (ExtrOcamlBasic only) and implementation on the same scripts, OCaml driver, C harness, generators; the theorem is about the model and reaches the code only through that tie",
-            "technique": "machine-checked proof in Coq over a Gallina model of the API (every boolean observer the check evaluates is itself a theorem of the model for every script); tie = tables regenerated from the compiled library (Gen.v) + 30 leaf functions translated from clang's typed AST on every run and proved equal to the model's (GenLeaf.v) + 49 functions of the middle and API layer up to rdsparser_parser_process translated the same way and proved equal to the model's process on the pinned tree (GenMid.v, Properties_Mid_Cxx.v: a second tie; when a change to the sources defeats it the check records that and doubles its search for a failing input) + model/implementation correspondence on generated scripts + extracted observers evaluated on implementation traces",
+            "technique": "machine-checked proof in Coq over a Gallina model of the API (every boolean observer the check evaluates is itself a theorem of the model for every script); tie = tables regenerated from the compiled library (Gen.v) + 30 leaf functions translated from clang's typed AST on every run and proved equal to the model's (GenLeaf.v) + 50 functions of the middle and API layer up to rdsparser_parser_process translated the same way and proved equal to the model's process on the pinned tree (GenMid.v, Properties_Mid_Cxx.v: a second tie; when a change to the sources defeats it the check records that and doubles its search for a failing input) + model/implementation correspondence on generated scripts + extracted observers evaluated on implementation traces",
         })
     man = {
         "version": 1,
